@@ -38,6 +38,8 @@ def scenarios(rnd, tier):
             else:
                 ops.append("c:%d" % rnd.randrange(256))
         out.append("tg " + ",".join(ops))
+    out += ["tg a:221:%s,a:0:%s,s:%s" % ("5a" * 256, "41" * 255, "42" * 300),
+            "gen beacon a1=000000000000 a2=000000000000 a3=000000000000 ssid=%s ch=6 clk=1:0 ops=s:%s" % ("41" * 256, "43" * 300)]
     # parsers on accepted frames with and without radiotap
     for kind in frames.PARSABLE:
         for mode in range(3):
